@@ -46,6 +46,9 @@
                         level (Syntax/DropEmpty.v), or both rejected - by a stuttering simulation of the whole parser.
      C14_blank_line_lexer, C14_blank_line_source (Lex/WsInsert.v nl_insert_raw) a blank line added to the SOURCE TEXT
                         after a line break: one more Newline token, nothing else changes; hence the above applies.
+     C14_nl_in_brackets_full (Parse/NbCtx.v, Parse/NbSim.v) LINE BREAKS INSIDE BRACKETS for whole files of the FULL
+                        language: no restriction on the file; the bracket groups in which newlines differ must not
+                        contain fn / pu / if / case (other groups may, they just have to agree).
    Nothing of this file is left as an unproved Prop except the refuted first formulation
    C14_nl_in_brackets_statement_level (kept visible next to its refutation).  *)
 From Coq Require Import String List NArith Bool Arith.
@@ -55,6 +58,7 @@ From Sylt Require Import Lex.Regex Lex.Logos Lex.LayoutProofs Gen.GenTokens
 From Sylt Require Parse.SimGen Parse.CommentSim.
 From Sylt Require Lex.WsInsert Parse.SourceLayout.
 From Sylt Require Syntax.DropEmpty Parse.BlankCtx Parse.BlankSim.
+From Sylt Require Parse.NbCtx Parse.NbSim.
 From Sylt Require Import Syntax.SugarNF Parse.StmtRoundTrip Parse.SugarNFProofs.
 Import ListNotations.
 
@@ -374,6 +378,54 @@ Proof.
   split; [intros; apply Parse.BlankCtx.BL_dup; assumption|]. split; reflexivity.
 Qed.
 Print Assumptions C14_blank_lines_program.
+
+(* ---- line breaks inside brackets, whole files of the FULL language (no `frag` restriction on the file) ----
+   [NB 0 ts ts']: the two token lists (without their comments) are equal except for newline tokens inside SIMPLE
+   bracket groups: ( ... ), [ ... ], { ... } whose content has no fn / pu / if / case (brackets nest).  An opening
+   bracket may also be read as a plain token, so groups that contain blocks are allowed - they have to be the same on
+   both sides up to their own inner simple groups.  Everything else of the language is allowed everywhere.
+   With at least parse_fuel on both sides: both files are accepted, with the same tree (the same top-level statements
+   up to EmptyStatements when comments differ), or both are rejected.
+   Parse/NbCtx.v (the cursor level), Parse/NbSim.v (a simulation of the whole parser in which the bracket depth is
+   threaded through every request; entering and leaving a group restores the saved flag, [link]). *)
+Theorem C14_nl_in_brackets_full : forall ts ts' f f',
+  Parse.NbCtx.NB 0 (CommentSim.ec ts) (CommentSim.ec ts') ->
+  hd TEOF (CommentSim.ec ts) <> TEOF -> hd TEOF (CommentSim.ec ts') <> TEOF ->
+  parse_fuel ts <= f -> parse_fuel ts' <= f' ->
+  match parse_program gen_ptab f ts, parse_program gen_ptab f' ts' with
+  | Ok (ss, _), Ok (ss', _) => SimGen.noempty ss = SimGen.noempty ss'
+  | Err _ _, Err _ _ => True
+  | _, _ => False
+  end.
+Proof. exact (Parse.NbSim.nl_in_brackets_full gen_ptab C14_total_ok C14_bracket_sane). Qed.
+
+(* without comments: the same tree *)
+Theorem C14_nl_in_brackets_full_nocom : forall ts ts' f f',
+  Parse.BlankCtx.nocom ts -> Parse.NbCtx.NB 0 ts ts' -> parse_fuel ts <= f -> parse_fuel ts' <= f' ->
+  match parse_program gen_ptab f ts, parse_program gen_ptab f' ts' with
+  | Ok (ss, _), Ok (ss', _) => ss = ss'
+  | Err _ _, Err _ _ => True
+  | _, _ => False
+  end.
+Proof. exact (Parse.NbSim.nl_in_brackets_full_nocom gen_ptab C14_total_ok C14_bracket_sane). Qed.
+
+(* the relation, pinned by its rules *)
+Example C14_NB_rules :
+  (forall d, Parse.NbCtx.NB d [] []) /\
+  (forall t l l', Parse.NbCtx.NB 0 l l' -> Parse.NbCtx.NB 0 (t :: l) (t :: l')) /\
+  (forall d t l l', opener t = true -> Parse.NbCtx.NB (S d) l l' -> Parse.NbCtx.NB d (t :: l) (t :: l')) /\
+  (forall d t l l', opener t = false -> closer t = false -> Parse.BlankCtx.isNL t = false -> frag_tok t = true ->
+                    Parse.NbCtx.NB (S d) l l' -> Parse.NbCtx.NB (S d) (t :: l) (t :: l')) /\
+  (forall d t l l', closer t = true -> Parse.NbCtx.NB d l l' -> Parse.NbCtx.NB (S d) (t :: l) (t :: l')) /\
+  (forall d l l', Parse.NbCtx.NB (S d) l l' -> Parse.NbCtx.NB (S d) (TK KNewline :: l) l') /\
+  (forall d l l', Parse.NbCtx.NB (S d) l l' -> Parse.NbCtx.NB (S d) l (TK KNewline :: l')).
+Proof.
+  split; [constructor|]. split; [intros; apply Parse.NbCtx.NB_any; assumption|].
+  split; [intros; apply Parse.NbCtx.NB_open; assumption|]. split; [intros; apply Parse.NbCtx.NB_tok; assumption|].
+  split; [intros; apply Parse.NbCtx.NB_close; assumption|]. split; [intros; apply Parse.NbCtx.NB_nll; assumption|].
+  intros; apply Parse.NbCtx.NB_nlr; assumption.
+Qed.
+Print Assumptions C14_nl_in_brackets_full.
 
 (* ---- stated, refuted above, kept visible ---- *)
 Definition C14_nl_in_brackets_statement_level : Prop := nl_in_brackets_statement_level gen_ptab.   (* refuted above *)
@@ -790,6 +842,37 @@ Proof.
   split; [vm_compute; reflexivity|].
   exists (firstn 10 (raw_lex (length C14_src_lf) gen_table C14_src_lf)).
   split; [vm_compute; reflexivity|split; [vm_compute; reflexivity|split; [vm_compute; reflexivity|vm_compute; discriminate]]].
+Qed.
+
+(* line breaks inside the brackets of a program with functions, a lambda in parentheses and an if: the hypothesis of
+   C14_nl_in_brackets_full holds, the token lists differ, the trees are equal *)
+Definition C14_src_brk1 : list N :=
+  (codes "add :: fn a: int, b: int -> int do" ++ [10]%N ++ codes "  ret a + b" ++ [10]%N ++ codes "end" ++ [10]%N ++
+   codes "main :: fn do" ++ [10]%N ++ codes "  l := [1, 2, add(3, 4)]" ++ [10]%N ++
+   codes "  g := (fn x: int -> int do" ++ [10]%N ++ codes "    ret add(x, 1)" ++ [10]%N ++ codes "  end)" ++ [10]%N ++
+   codes "  if add(1, 2) > 2 do" ++ [10]%N ++ codes "    l = [g(5)]" ++ [10]%N ++ codes "  end" ++ [10]%N ++ codes "end" ++ [10]%N)%list.
+Definition C14_src_brk2 : list N :=
+  (codes "add :: fn a: int, b: int -> int do" ++ [10]%N ++ codes "  ret a + b" ++ [10]%N ++ codes "end" ++ [10]%N ++
+   codes "main :: fn do" ++ [10]%N ++ codes "  l := [" ++ [10]%N ++ codes "    1," ++ [10]%N ++ codes "    2, add(3," ++ [10; 10]%N ++
+   codes "      4)" ++ [10]%N ++ codes "  ]" ++ [10]%N ++
+   codes "  g := (fn x: int -> int do" ++ [10]%N ++ codes "    ret add(x," ++ [10]%N ++ codes "            1)" ++ [10]%N ++ codes "  end)" ++ [10]%N ++
+   codes "  if add(1," ++ [10]%N ++ codes "         2) > 2 do" ++ [10]%N ++ codes "    l = [g(" ++ [10]%N ++ codes "5)]" ++ [10]%N ++
+   codes "  end" ++ [10]%N ++ codes "end" ++ [10]%N)%list.
+Ltac c14_nb := first [ apply Parse.NbCtx.NB_nil
+                     | (apply Parse.NbCtx.NB_nll; c14_nb) | (apply Parse.NbCtx.NB_nlr; c14_nb)
+                     | (apply Parse.NbCtx.NB_open; [reflexivity|c14_nb])
+                     | (apply Parse.NbCtx.NB_close; [reflexivity|c14_nb])
+                     | (apply Parse.NbCtx.NB_tok; [reflexivity|reflexivity|reflexivity|reflexivity|c14_nb])
+                     | (apply Parse.NbCtx.NB_any; c14_nb) ].
+Example C14_example_nl_in_brackets_full :
+  let ts := map classify (lex gen_table C14_src_brk1) in
+  let ts' := map classify (lex gen_table C14_src_brk2) in
+  Parse.NbCtx.NB 0 (CommentSim.ec ts) (CommentSim.ec ts') /\ ts <> ts' /\
+  (exists ss c c', parse_program gen_ptab (parse_fuel ts) ts = Ok (ss, c) /\
+                   parse_program gen_ptab (parse_fuel ts') ts' = Ok (ss, c') /\ length ss = 2).
+Proof.
+  split; [vm_compute; c14_nb|]. split; [vm_compute; discriminate|].
+  vm_compute. do 3 eexists. split; [reflexivity|]. split; reflexivity.
 Qed.
 
 Example C14_example_source_to_tree :
